@@ -63,6 +63,8 @@ PROPS["C14"] = Prop(
         _c14("exp_total_cap_anypow", "ExponentialBackoff::next_interval never panics/overflows and never exceeds max_interval",
              "attempt: any usize (0..=usize::MAX); initial: any <= 10 days; multiplier any f64 in [1,10]; max_interval None or any; "
              "powi result: ANY f64", timeout=600),
+        _c14("exp_overflow_saturates_to_cap", "when initial*multiplier^attempt is not representable the delay is max_interval / Duration::MAX (never collapses to zero)",
+             "powi result any f64 >= 1e30 (incl. +inf); initial any in [1 ms, 10 days]; max None/any", timeout=600),
         _c14("exp_exponent_is_attempt", "the exponent passed to powi equals the attempt (clamped at i32::MAX, never negative)",
              "attempt: any usize", timeout=300),
         _c14("exp_pow_arguments", "powi is called once with (configured multiplier, attempt)",
@@ -162,7 +164,9 @@ BH_BOUND = ("ONE call future; up to 3 schedule steps (then dropped), each = adva
 _bh_h = [
     _bh("layer_builds_one_shared_semaphore", "layer(): one semaphore of max_concurrent_calls permits, shared by clones; configured max_wait is what a waiter is timed against",
         "max_concurrent_calls 1..=100000, max_wait any whole ms <= 60 s", timeout=1500),
-    _bh("one_call_any_availability", "per-caller protocol P1-P3, admission in the poll that grants the slot, exact timeout, transparency; semaphore grants at the solver's choice at every poll", BH_BOUND, timeout=2400),
+    _bh("one_call_two_polls", "per-caller protocol P1-P3, admission in the poll that grants the slot, exact timeout, transparency; semaphore grants at the solver's choice at every poll",
+        BH_BOUND.replace("up to 3 schedule steps", "up to 2 schedule steps"), timeout=1500),
+    _bh("one_call_any_availability", "same with up to 3 polls", BH_BOUND, timeout=3000, tiers=("thorough",)),
 ]
 PROPS["C01"] = Prop(harnesses=_bh_h,
     functions=["tower_resilience_bulkhead::service::Bulkhead::{new,poll_ready,call} (the compiled async state machine)", "BulkheadLayer::layer"],
@@ -210,8 +214,10 @@ PROPS["C19"] = Prop(
     harnesses=[
         _ch("one_request_all_rolls", "error/latency decisions, latency range, skip of the inner call, transparency at 0, always-fail at 1, draw count",
             "one request; error rate and latency rate any f64 in [0,1]; every roll in [0,1); min/max latency any whole ms <= 100 s (min <,=,> max); any seed; <= 3 polls with an arbitrary advance in between", timeout=1800),
+        _ch("clones_share_one_seeded_stream", "clones of one seeded service consume consecutive positions of one stream; same seed => same start",
+            "error rate 1 (one draw per request), 3 requests, any seed", timeout=1500),
         _ch("deterministic_in_seed_and_order", "clones share one advancing stream; same seed + same order => same decisions and latencies (self-composition)",
-            "2 requests through 2 clones, replayed on a second service; stream = 8 arbitrary values", timeout=2400, tiers=("thorough",)),
+            "2 requests through 2 clones, replayed on a second service; stream = 8 arbitrary values (did not finish in 40 min; kept for very long runs)", timeout=14400, tiers=()),
     ],
     functions=["tower_resilience_chaos::service::Chaos::{new,poll_ready,call}", "ChaosConfig::create_rng", "CustomErrorFn::{inject_error,error_rate}"],
     bounds="one request (two for determinism), <= 4 polls each, rates/rolls all of [0,1], latency bounds whole ms <= 100 s",
@@ -278,8 +284,10 @@ _r16 = lambda n, what, **kw: H("verif_kani::c16::" + n, RECONNECT, what,
     "one request, <= 3 polls, the clock advanced by exactly the policy delay between them (early polls: harness not_connected_while_failing); max_attempts None or 0..=1; inner outcomes symbolic (ok / reconnectable / other error); another request may mark the shared state connected before any poll",
     models=("tokio", "rand"), profile="service", playback=False, mem_gb=24, timeout=2400, **kw)
 PROPS["C16"] = Prop(
-    harnesses=[_r16("not_connected_while_failing", "state is not Connected, and no call is issued, during the back-off and while the retried call is in flight"),
-               _r16("custom_policy_predicate_retry", "custom policy with per-attempt delays, predicate, retry on"),
+    harnesses=[_r16("predicate_checked_for_every_error", "connection failure then other error: one retry, then the other error is returned; predicate consulted for both"),
+               _r16("attempt_budget_is_per_request", "max_attempts=1: another request's success between two attempts does not extend this request's budget"),
+               _r16("not_connected_while_failing", "state is not Connected, and no call is issued, during the back-off and while the retried call is in flight"),
+               _r16("custom_policy_predicate_retry", "custom policy with per-attempt delays, predicate, retry on", tiers=("thorough",)),
                _r16("custom_policy_no_predicate", "custom policy, no predicate", tiers=("thorough",)),
                _r16("fixed_policy_no_retry", "fixed policy, retry_on_reconnect off"),
                _r16("no_policy", "policy None", tiers=("thorough",))],
@@ -340,9 +348,20 @@ HEDGE = "tower-resilience-hedge"
 _h12 = lambda n, what, bound, timeout=3000, **kw: H("verif_kani::c12::" + n, HEDGE, what, bound, models=("tokio",), profile="service", playback=False, mem_gb=30, timeout=timeout, **kw)
 PROPS["C12"] = Prop(
     harnesses=[
+        _h12("short_parallel_immediate", "parallel mode, both attempts complete at once: all started together, first delivered success wins, failure only when both failed", "2 polls of the call, outcomes symbolic", timeout=1500),
+        _h12("short_latency_primary_immediate", "latency mode, primary completes before the delay: success => resolved, no hedge; failure => still pending, no early hedge", "2 polls, outcome symbolic", timeout=1500),
+        _h12("short_latency_hedge_fails_primary_running", "latency mode: hedge started exactly at the delay; its failure does not fail the call while the primary runs", "3 polls, hedge error symbolic", timeout=1500),
+        _h12("scenario_primary_fails_while_hedge_runs", "latency mode: primary (7 s) outlives delay (5 s) + hedge (3 s): success at once; primary failure keeps the call pending until the hedge decides",
+             "fixed schedule and latencies, outcomes of both attempts symbolic (ok/err, any 32-bit value), any request", tiers=(), timeout=14400),
+        _h12("scenario_primary_finishes_before_delay", "latency mode: primary finishes before the delay: success => no hedge; failure => hedge still started at the delay and decides", "as above", tiers=(), timeout=14400),
+        _h12("scenario_parallel_two_attempts", "parallel mode: both attempts at once, first success wins, failure only after both failed", "as above", tiers=(), timeout=14400),
+        _h12("latency_mode_fixed_schedule", "latency mode (5 s delay), 2 attempts, fixed clock steps 0/5/4/8 s, all attempt tasks run each round",
+             "per-attempt latency any whole second <= 12 s, ok/err outcomes symbolic; 4 rounds", tiers=(), timeout=14400),
+        _h12("parallel_mode_fixed_schedule", "parallel mode, 2 attempts, fixed clock steps 0/0/6/7 s", "as above", tiers=(), timeout=14400),
         _h12("latency_mode_two_attempts", "latency mode (fixed positive delay), max_hedged_attempts = 2",
-             "delay 5 s (HedgeDelay::get_delay stubbed by a constant); per-attempt latency any whole ms <= 60 s, ok/err outcome; 4 scheduling rounds: advance the clock by any amount, run the attempt tasks, poll the call"),
-        _h12("parallel_mode_two_attempts", "parallel mode (Immediate), 2 attempts", "3 rounds, otherwise as above"),
+             "delay 5 s (HedgeDelay::get_delay stubbed by a constant); per-attempt latency any whole ms <= 60 s, ok/err outcome; 4 scheduling rounds: advance the clock by any amount, run the attempt tasks, poll the call",
+             tiers=("thorough",), timeout=7200),
+        _h12("parallel_mode_two_attempts", "parallel mode (Immediate), 2 attempts", "3 rounds, otherwise as above", tiers=("thorough",), timeout=7200),
         _h12("single_attempt", "max_hedged_attempts = 1", "3 rounds", tiers=("thorough",)),
         _h12("latency_mode_three_attempts", "latency mode, 3 attempts", "5 rounds", tiers=("thorough",), timeout=5400),
     ],
@@ -384,7 +403,13 @@ _r5 = lambda n, what, **kw: H("verif_kani::c05::" + n, RETRY, what,
     models=("tokio", "rand"), profile="service", playback=False, mem_gb=24, timeout=2400, **kw)
 PROPS["C05"] = Prop(
     harnesses=[_r5("waits_full_backoff", "still pending and no retry at any instant before the backoff elapsed; retry exactly when it has"),
-               _r5("plain", "no predicate, no budget"), _r5("with_predicate", "retry predicate", tiers=("thorough",)), _r5("with_budget", "retry budget"),
+               _r5("plain_two_attempts", "no predicate, no budget, max_attempts 0..=2"),
+               _r5("with_budget_two_attempts", "budget + predicate, max_attempts 0..=2"),
+               _c14("exp_overflow_saturates_to_cap", "the configured exponential backoff never collapses to zero deep into a retry sequence (shared with C14)",
+                    "powi result any f64 >= 1e30; initial any in [1 ms, 10 days]; max None/any", timeout=600),
+               _c14("exp_total_cap_anypow", "the configured exponential backoff is total and capped for every attempt (shared with C14)", "see C14", timeout=600),
+               _r5("plain", "no predicate, no budget, max_attempts 0..=3", tiers=("thorough",)), _r5("with_predicate", "retry predicate", tiers=("thorough",)),
+               _r5("with_budget", "retry budget", tiers=("thorough",)),
                _r5("with_budget_predicate_dynamic_max", "budget + predicate + per-request max_attempts", tiers=("thorough",))],
     functions=["tower_resilience_retry::Retry::{new,poll_ready,call}", "RetryPolicy::{should_retry,next_backoff}", "MaxAttemptsSource::get_max_attempts"],
     bounds="one request, max_attempts <= 3, <= 3 inner outcomes, backoff <= 10 s per retry",
